@@ -878,3 +878,36 @@ replay_proof! {
         }
     }
 }
+
+// ---------------------------------------------------------------- C13: refused open and the chunk files
+
+// The directory is owned by somebody else and its newest chunk ends in a torn
+// record: `RaftLog::open` must fail on the lock BEFORE it reads, let alone
+// repairs, any chunk file (the lock itself is the ghost lock here; the real
+// FileLock over an inode-keyed flock table is c13_lock_cycle / c13_open_refused).
+// @harness name=c13_refused_open_leaves_chunks prop=C13 tier=quick timeout=1200 fs=512
+replay_proof! {
+    unwind = 10, crc = off,
+    fn c13_refused_open_leaves_chunks() {
+        unsafe { crate::file_lock::kani_h_a_lock::LOCK_HELD = true };
+        let mut im = Img::new(0, 0);
+        im.state(None, None, None, None, None);
+        let e1 = im.commit(kani::any());
+        im.vote(kani::any());
+        im.commit_len();
+        let cut = e1 + 5;
+        gfs::fs().files[0].len = cut as u64;
+        match open(replay_config(None)) {
+            Some(rl) => {
+                core::mem::forget(rl);
+                assert!(false, "open succeeds on a directory that is locked by another owner");
+            }
+            None => {
+                let f = &gfs::fs().files[0];
+                assert!(f.n_open == 0, "a refused open read a chunk file before it had the directory lock");
+                assert!(untouched(0, cut), "a refused open modified a chunk file");
+                kani::cover!(true, "refused before any chunk file was touched");
+            }
+        }
+    }
+}
